@@ -170,9 +170,24 @@ def run_step(name, c, other, cs, z_new, z_old, k, t, num, out, klass0, idx):
     elif name == "degree_increase_bad":
         c.degree_increase([0, -1, 1.5][k % 3])
     elif name == "degree_decrease":
-        c.degree_decrease(1, None if k % 2 else 1e-9)
+        if k % 4 == 3 and c.degree <= 2:
+            # history inside one step: elevate by one, then ask for a drop of two or three levels in one call
+            # (only partly possible for a generic curve): if it raises, the elevated curve must still be there
+            c.degree_increase(1)
+            mid = lib.snapshot(c)
+            try:
+                c.degree_decrease(2 + (k // 4) % 2)
+            except Exception as exc:
+                if not lib.from_library(exc):
+                    raise
+                if lib.snapshot(c) != mid:
+                    out.fail("atomicity", f"{klass0};degree_decrease-multi",
+                             f"step {idx}: degree_decrease({2 + (k // 4) % 2}) after one elevation raised {type(exc).__name__} "
+                             f"({exc}) but left a partly reduced curve: U={list(c.knotvector)}")
+        else:
+            c.degree_decrease(1 + (k % 3 == 2), None if k % 2 else 1e-9)
     elif name == "degree_set":
-        c.degree = min(4, max(0, c.degree + (k % 3) - 1))
+        c.degree = min(4, max(0, c.degree + (k % 5) - 2))
     elif name == "degree_set_bad":
         c.degree = [-1, 1.5, "a"][k % 3]
     elif name == "degree_clean":
